@@ -134,7 +134,7 @@ def _elementwise(fname, symf):
     return f
 
 
-def _sabs(v): return abs(v)
+def _sabs(v): return builtins.abs(v)      # (the module-level name `abs` below is np.abs)
 def _ssqrt(v): return sym.ssqrt(v) if is_sym(v) else _math.sqrt(v)
 
 abs = _elementwise('abs', _sabs)
